@@ -1,0 +1,9 @@
+//go:build verif
+
+// Contracts for gvc (/verif). Comment-only: this file adds no declarations.
+
+package str
+
+// C17 sweep: str: builtins never panic, whatever their arguments.
+//@ func repeat
+//@   props C17
